@@ -528,7 +528,16 @@ func (w *walker) assign(s *ast.AssignStmt, st *state, k func(*state)) {
 				})
 				return
 			}
-			w.store(s.Lhs[i], v, s, s.Rhs[i], -1, s.Tok, st, after)
+			var ret *Event
+			if _, isCall := unparen(s.Rhs[i]).(*ast.CallExpr); isCall && len(s.Rhs) == 1 {
+				ret = lastReturnOf(st)
+			}
+			w.store(s.Lhs[i], v, s, s.Rhs[i], -1, s.Tok, st, func(st *state) {
+				if ret != nil {
+					st.last.RetEv = ret
+				}
+				after(st)
+			})
 		}
 		step(st, 0)
 	})
